@@ -33,6 +33,7 @@ type Msg struct {
 type Node struct {
 	Index    int
 	Tell     func(ctx context.Context, dst int, v p2p.IOVec) error
+	TellText func(ctx context.Context, dstText string, v p2p.IOVec) error // destination given as address text (e.g. a delivered source)
 	Receive  func(ctx context.Context, fn func(Msg)) error
 	Ask      func(ctx context.Context, resp []byte, dst int, v p2p.IOVec) (int, error)
 	ServeAsk func(ctx context.Context, fn func(ctx context.Context, resp []byte, m Msg) int) error
@@ -90,6 +91,13 @@ func WrapSwarms[A p2p.Addr](swarms []p2p.Swarm[A], addrs []A) []*Node {
 		s := swarms[i]
 		n := &Node{Index: i}
 		n.Tell = func(ctx context.Context, dst int, v p2p.IOVec) error { return s.Tell(ctx, addrs[dst], v) }
+		n.TellText = func(ctx context.Context, dstText string, v p2p.IOVec) error {
+			a, err := s.ParseAddr([]byte(dstText))
+			if err != nil {
+				return err
+			}
+			return s.Tell(ctx, a, v)
+		}
 		n.Receive = func(ctx context.Context, fn func(Msg)) error {
 			return s.Receive(ctx, func(m p2p.Message[A]) {
 				fn(Msg{Src: lookup(m.Src), Dst: lookup(m.Dst), SrcText: text(m.Src), DstText: text(m.Dst), Payload: m.Payload})
